@@ -86,12 +86,91 @@ func c08Total(cb *libcb.CircuitBreaker) int {
 var c08StateNames = map[libcb.State]string{libcb.StateClosed: "closed", libcb.StateOpen: "open", libcb.StateHalfOpen: "halfopen",
 	libcb.StateDisabled: "disabled", libcb.StateForceOpen: "forceopen"}
 
-func c08NewProxy(pol vx.M, retry bool, maxAttempts int) (*Proxy, error) {
-	pool := map[string]interface{}{
-		"servers":              []interface{}{map[string]interface{}{"url": "http://c08.test:8080"}},
-		"failureCodes":         []interface{}{503},
-		"circuitBreakerPolicy": "c08cb",
+// c08Set is what one trace runs on: one Proxy with one pool ("single"), one Proxy whose main pool and
+// candidate pool name the same circuitBreakerPolicy ("cand"), or two Proxy filters of one pipeline whose
+// pools name the same policy ("proxies": the pipeline hands every filter the same policy objects).
+// pools[x] is the server pool that serves the requests of class x ("a", "b"), via[x] the filter they enter.
+type c08Set struct {
+	pools map[string]*ServerPool
+	via   map[string]*Proxy
+	all   []*Proxy
+}
+
+func (s *c08Set) Close() {
+	for _, p := range s.all {
+		p.Close()
 	}
+}
+
+func c08NewSet(variant string, pol vx.M, retry bool, maxAttempts int) (*c08Set, error) {
+	policies, err := c08Policies(pol, retry, maxAttempts)
+	if err != nil {
+		return nil, err
+	}
+	poolSpec := func(host string, cand bool) map[string]interface{} {
+		pool := map[string]interface{}{
+			"servers":              []interface{}{map[string]interface{}{"url": "http://" + host + ":8080"}},
+			"failureCodes":         []interface{}{503},
+			"circuitBreakerPolicy": "c08cb",
+		}
+		if retry {
+			pool["retryPolicy"] = "c08retry"
+		}
+		if cand {
+			pool["filter"] = map[string]interface{}{"headers": map[string]interface{}{"X-C08-Pool": map[string]interface{}{"exact": "b"}}}
+		}
+		return pool
+	}
+	build := func(name string, pools ...interface{}) (*Proxy, error) {
+		raw := map[string]interface{}{"name": name, "kind": Kind, "pools": pools}
+		spec, err := filters.NewSpec(nil, "", raw)
+		if err != nil {
+			return nil, err
+		}
+		p := kind.CreateInstance(spec).(*Proxy)
+		p.Init()
+		p.InjectResiliencePolicy(policies) // as Pipeline does for every filter that is a Resiliencer
+		return p, nil
+	}
+	set := &c08Set{pools: map[string]*ServerPool{}, via: map[string]*Proxy{}}
+	switch variant {
+	case "cand":
+		p, err := build("c08", poolSpec("c08a.test", false), poolSpec("c08b.test", true))
+		if err != nil {
+			return nil, err
+		}
+		if len(p.candidatePools) != 1 {
+			return nil, fmt.Errorf("c08: expected one candidate pool, have %d", len(p.candidatePools))
+		}
+		set.all = []*Proxy{p}
+		set.pools["a"], set.pools["b"] = p.mainPool, p.candidatePools[0]
+		set.via["a"], set.via["b"] = p, p
+	case "proxies":
+		pa, err := build("c08a", poolSpec("c08a.test", false))
+		if err != nil {
+			return nil, err
+		}
+		pb, err := build("c08b", poolSpec("c08b.test", false))
+		if err != nil {
+			pa.Close()
+			return nil, err
+		}
+		set.all = []*Proxy{pa, pb}
+		set.pools["a"], set.pools["b"] = pa.mainPool, pb.mainPool
+		set.via["a"], set.via["b"] = pa, pb
+	default:
+		p, err := build("c08", poolSpec("c08.test", false))
+		if err != nil {
+			return nil, err
+		}
+		set.all = []*Proxy{p}
+		set.pools["a"] = p.mainPool
+		set.via["a"] = p
+	}
+	return set, nil
+}
+
+func c08Policies(pol vx.M, retry bool, maxAttempts int) (map[string]resilience.Policy, error) {
 	wait := "2h"
 	if vx.Int(pol["waitOpen"]) < 1000 {
 		wait = (time.Duration(vx.Int(pol["waitOpen"])) * c08Tick).String()
@@ -105,7 +184,6 @@ func c08NewProxy(pol vx.M, retry bool, maxAttempts int) (*Proxy, error) {
 	}
 	policies := map[string]resilience.Policy{"c08cb": cbp}
 	if retry {
-		pool["retryPolicy"] = "c08retry"
 		rp, err := resilience.NewPolicy(map[string]interface{}{"kind": "Retry", "name": "c08retry", "maxAttempts": maxAttempts,
 			"waitDuration": "1ms", "backOffPolicy": "random"})
 		if err != nil {
@@ -113,25 +191,19 @@ func c08NewProxy(pol vx.M, retry bool, maxAttempts int) (*Proxy, error) {
 		}
 		policies["c08retry"] = rp
 	}
-	raw := map[string]interface{}{"name": "c08", "kind": Kind, "pools": []interface{}{pool}}
-	spec, err := filters.NewSpec(nil, "", raw)
-	if err != nil {
-		return nil, err
-	}
-	p := kind.CreateInstance(spec).(*Proxy)
-	p.Init()
-	p.InjectResiliencePolicy(policies)
-	return p, nil
+	return policies, nil
 }
 
 // c08Request sends one request and returns the observation.
-func c08Request(p *Proxy, id string, tr *c08Trace, stream bool, script []string) vx.M {
+func c08Request(set *c08Set, pool string, id string, tr *c08Trace, stream bool, script []string) vx.M {
+	p := set.via[pool]
 	tr.mu.Lock()
 	tr.script = script
 	tr.calls = 0
 	tr.mu.Unlock()
 	stdr, _ := http.NewRequestWithContext(stdcontext.Background(), http.MethodPost, "http://c08.example.com/x", strings.NewReader("c08-body"))
 	stdr.Header.Set("X-C08-Id", id)
+	stdr.Header.Set("X-C08-Pool", pool)
 	req, _ := httpprot.NewRequest(stdr)
 	if stream {
 		req.FetchPayload(-1)
@@ -157,11 +229,11 @@ func c08Request(p *Proxy, id string, tr *c08Trace, stream bool, script []string)
 	} else {
 		res = "panic"
 	}
-	cb := c08Breaker(p.mainPool)
+	cb := c08Breaker(set.pools[pool]) // the breaker of the pool that served the request
 	tr.mu.Lock()
 	k := tr.calls
 	tr.mu.Unlock()
-	return vx.M{"ev": "req", "res": res, "st": st, "k": k, "fail": res != "", "tot": c08Total(cb), "s": c08StateNames[cb.State()],
+	return vx.M{"ev": "req", "pool": pool, "res": res, "st": st, "k": k, "fail": res != "", "tot": c08Total(cb), "s": c08StateNames[cb.State()],
 		"stream": req.IsStream(), "script": script}
 }
 
@@ -184,58 +256,77 @@ func TestVerifC08Pool(t *testing.T) {
 		}
 		retry := ti%2 == 1 || rng.Intn(3) == 0
 		maxAtt := 2 + rng.Intn(2)
+		// every third trace: two pools of one Proxy, every third: two Proxies - naming the same policy
+		variant := []string{"single", "cand", "proxies"}[ti%3]
 		seed := rng.Int63()
 		wg.Add(1)
 		go func(ti int, seed int64) {
 			defer wg.Done()
 			lr := vx.Rand(seed)
 			id := fmt.Sprintf("t%d", ti)
-			evs := []vx.M{{"ev": "reset", "pol": pol, "retry": retry, "max": maxAtt}}
-			p, err := c08NewProxy(pol, retry, maxAtt)
+			evs := []vx.M{{"ev": "reset", "pol": pol, "retry": retry, "max": maxAtt, "variant": variant}}
+			set, err := c08NewSet(variant, pol, retry, maxAtt)
 			if err != nil {
 				out[ti] = append(evs, vx.M{"ev": "rejected", "err": err.Error()})
 				return
 			}
-			defer p.Close()
+			defer set.Close()
 			tr := &c08Trace{}
 			c08Traces.Store(id, tr)
 			defer c08Traces.Delete(id)
-			failBias := 30 + lr.Intn(60)
-			var openedAt time.Time
+			// how often the backend of a pool fails; with two pools the second one's backend is healthy in
+			// half of the traces (its own calls nearly all succeed) while the first one's fails a lot
+			failBias := map[string]int{"a": 30 + lr.Intn(60)}
+			nr := nReq
+			if len(set.pools) == 2 {
+				failBias["a"] = 55 + lr.Intn(40)
+				failBias["b"] = 30 + lr.Intn(60)
+				if lr.Intn(2) == 0 {
+					failBias["b"] = lr.Intn(8)
+				}
+				nr = nReq * 3 / 2
+			}
+			openedAt := map[string]time.Time{}
 			tainted := ""
-			for s := 0; s < nReq; s++ {
+			for s := 0; s < nr; s++ {
+				pool := "a"
+				if len(set.pools) == 2 && lr.Intn(2) == 0 {
+					pool = "b"
+				}
+				fb := failBias[pool]
 				script := make([]string, maxAtt)
 				for i := range script {
 					switch x := lr.Intn(100); {
-					case x < failBias/2:
+					case x < fb/2:
 						script[i] = "neterr"
-					case x < failBias:
+					case x < fb:
 						script[i] = "fcode"
-					case x < failBias+3:
+					case x < fb+3 && fb >= 10:
 						script[i] = "panic"
 					default:
 						script[i] = "ok"
 					}
 				}
-				e := c08Request(p, id, tr, lr.Intn(2) == 0, script)
+				e := c08Request(set, pool, id, tr, lr.Intn(2) == 0, script)
 				evs = append(evs, e)
 				switch e["s"] {
 				case "open":
-					if openedAt.IsZero() {
-						openedAt = time.Now()
-					} else if vx.Int(pol["waitOpen"]) < 1000 && time.Since(openedAt) > c08Tick*3/2 {
+					if openedAt[pool].IsZero() {
+						openedAt[pool] = time.Now()
+					} else if vx.Int(pol["waitOpen"]) < 1000 && time.Since(openedAt[pool]) > c08Tick*3/2 {
 						tainted = "requests after opening took more than the margin of the wait duration"
 					}
 				default:
-					openedAt = time.Time{}
+					delete(openedAt, pool)
 				}
 				if e["s"] == "open" && sleeps > 0 && lr.Intn(2) == 0 {
-					// let waitDurationInOpenState elapse (one-sided: we sleep longer than it)
+					// let waitDurationInOpenState elapse (one-sided: we sleep longer than it); the time passes
+					// for every pool
 					sleeps--
 					d := vx.Int(pol["waitOpen"])
 					time.Sleep(time.Duration(d)*c08Tick + c08Tick/5)
 					evs = append(evs, vx.M{"ev": "tick", "d": d})
-					openedAt = time.Time{}
+					openedAt = map[string]time.Time{}
 				}
 			}
 			if tainted != "" {
